@@ -326,6 +326,9 @@ class Chipset(object):
 
         data = self.send_command(0x48, data)
 
+        if data and len(data) < 7:
+            log.error("insufficient response data for tg_comm_rf")
+            raise IOError(errno.EIO, os.strerror(errno.EIO))
         if data and tuple(data[3:7]) != (0, 0, 0, 0):
             raise CommunicationError(data[3:7])
 
